@@ -10,7 +10,7 @@ if [ "$P" = "--rm" ]; then git -C /repo worktree remove --force $W/src 2>/dev/nu
 mkdir -p $W
 [ -d $W/src ] || git -C /repo worktree add --detach $W/src HEAD >/dev/null 2>&1 || { echo "worktree failed"; exit 2; }
 git -C $W/src checkout -q --detach $(git -C /repo rev-parse HEAD) 2>/dev/null; git -C $W/src checkout -- . 
-if [ "$P" != "-" ]; then git -C $W/src apply "$P" || { echo "patch does not apply"; exit 2; }; fi
+if [ "$P" != "-" ]; then git -C $W/src apply "$P" 2>/dev/null || git -C $W/src apply --3way "$P" || { echo "patch does not apply"; exit 2; }; git -C $W/src reset -q; fi
 export VERIF_REPO=$W/src VERIF_BUILD=$W/build VERIF_OUT=$W/out
 for id in "$@"; do
   out=$(cd /verif && timeout 3000 ./check $id --tier ${TIER:-quick} 2>&1); rc=$?
